@@ -1,14 +1,14 @@
 import Nstd.Callback.LemmasTop
 /-
-  Argument forwarding.  `emit(signal, arg0, …)` takes its arguments by value of the declared
-  parameter types (Callback.hpp:42-59: `A arg0` is a parameter of `emit`, living in the frame of
-  that `emit` call) and hands `arg0, …` to every slot its loop invokes.  In the evaluator the
-  argument `v` of an emission is a parameter of the loop task; slot invocations, the start and the
-  return of every `emit` call are written to the log.  `fwd` reads such a log with the stack of
-  the arguments of the `emit` calls in progress: it accepts iff every invocation happens inside an
-  `emit` call and carries exactly the argument of the innermost `emit` call in progress (which is
-  the call whose loop makes the invocation: everything a slot starts has returned before the loop
-  goes on), and every return matches a start.
+  Argument forwarding.  `emit(signal, arg0, …)` declares its parameters with the parameter types of the signal
+  (Callback.hpp:42-59: `A arg0` lives in the frame of that `emit` call) and hands `arg0, …` to every slot its loop
+  invokes: a copy per slot for a value type, the caller's object itself for a reference type.  In the evaluator the
+  argument of an emission is a parameter of the loop task (`Arg`: current content + whether it is a reference); slot
+  invocations, what a slot called by reference left in the object (`ret`), the start and the return of every `emit`
+  call are written to the log.  `fwd` reads such a log with the stack of the arguments of the `emit` calls in progress:
+  it accepts iff every invocation happens inside an `emit` call and carries exactly the current content of the argument
+  of the innermost `emit` call in progress (which is the call whose loop makes the invocation: everything a slot starts
+  has returned before the loop goes on), `ret` occurs only for reference arguments, and every return matches a start.
 -/
 namespace Nstd.Callback
 
